@@ -656,9 +656,10 @@ Qed.
 
 Lemma rel_do_hello xs h c cn hl : Rel xs h (fst (do_hello h c cn hl)).
 Proof.
-  unfold do_hello. destruct hl as [b u rej|b tok f d|i].
+  unfold do_hello. destruct hl as [b u rej|b u t|b tok f d|i].
   - destruct (h_nb h <=? b); [rel_ns|]. destruct rej; [rel_ns|].
     destruct (register h c cn b KClient u) as [h1 o1] eqn:Hr. cbn [fst]. rewrite (fst_eq _ _ _ Hr). apply rel_register.
+  - destruct (v2_check (h_nb h) b t); [apply rel_register|rel_ns].
   - destruct (throttled h (c_addr cn) ACT_INTERNAL); [rel_ns|].
     destruct (negb (N.eqb tok 0)); [rel_ns|]. destruct (h_nb h <=? b); [rel_ns|]. apply rel_register.
   - destruct (throttled h (c_addr cn) ACT_RESUME); [apply rel_refl|].
@@ -875,7 +876,7 @@ Proof.
   unfold delete_member. destruct (get_sess h m) as [s|]; [|apply rel_refl].
   destruct (leave_room h m true) as [h2 o1] eqn:Hl.
   assert (R2 : Rel xs h h2) by (rewrite (fst_eq _ _ _ Hl); apply rel_leave_room).
-  destruct (is_virtual (s_kind s)); [exact R2|]. destruct (s_conn s); [|exact R2].
+  destruct (is_virtual (s_kind s)); [exact R2|].
   destruct (send_session h2 m (SRoom 0)) as [h3 o2] eqn:H3. cbn [fst]. rewrite (fst_eq _ _ _ H3).
   eapply rel_trans; [exact R2|apply rel_send_session].
 Qed.
